@@ -118,6 +118,13 @@ func readHeader(reader io.ReaderAt) (map[[2]byte]uint64, map[string]string, int6
 		return nil, nil, 0, fmt.Errorf("failed to read header size: %w", err)
 	}
 	// read header bytes:
+	if headerSize > 0 {
+		// The header size comes from the file: check that the last byte of the header is present before allocating that much.
+		var last [1]byte
+		if n, err := reader.ReadAt(last[:], 4+headerSize-1); n < len(last) {
+			return nil, nil, 0, fmt.Errorf("failed to read header bytes: %w", err)
+		}
+	}
 	headerBuf := make([]byte, headerSize)
 	if _, err := reader.ReadAt(headerBuf, 4); err != nil {
 		return nil, nil, 0, fmt.Errorf("failed to read header bytes: %w", err)
@@ -152,6 +159,10 @@ func readHeader(reader io.ReaderAt) (map[[2]byte]uint64, map[string]string, int6
 		if err != nil {
 			return nil, nil, 0, fmt.Errorf("failed to read numMeta: %w", err)
 		}
+		if numMeta > uint64(decoder.Remaining())/8 {
+			// Each entry takes at least the two 4-byte string lengths.
+			return nil, nil, 0, fmt.Errorf("numMeta %d exceeds the header size", numMeta)
+		}
 		meta := make(map[string]string, numMeta)
 		for i := uint64(0); i < numMeta; i++ {
 			key, err := decoder.ReadString()
@@ -171,6 +182,10 @@ func readHeader(reader io.ReaderAt) (map[[2]byte]uint64, map[string]string, int6
 		return nil, nil, 0, fmt.Errorf("failed to read numPrefixes: %w", err)
 	}
 	// prefix -> offset:
+	if numPrefixes > uint64(decoder.Remaining())/10 {
+		// Each entry takes a 2-byte prefix and an 8-byte offset.
+		return nil, nil, 0, fmt.Errorf("numPrefixes %d exceeds the header size", numPrefixes)
+	}
 	prefixToOffset := make(map[[2]byte]uint64, numPrefixes)
 	for i := uint64(0); i < numPrefixes; i++ {
 		var prefix [2]byte
